@@ -113,6 +113,10 @@ pub fn search(suite: &str, a: &[&str]) -> Option<String> {
                 return Some("FAIL rows/columns".into());
             }
             if Rectangle::with_center(r.center(), r.size) != r { return Some("FAIL with_center(center)".into()); }
+            // trivial constructors have a value oracle too
+            if Rectangle::new_at_origin(r.size) != Rectangle::new(Point::zero(), r.size) { return Some("FAIL new_at_origin".into()); }
+            if Rectangle::zero() != Rectangle::new(Point::zero(), Size::zero()) || Rectangle::default() != Rectangle::zero() { return Some("FAIL zero/default".into()); }
+            if r.is_zero_sized() != (r.size.width == 0 || r.size.height == 0) { return Some("FAIL is_zero_sized".into()); }
             if let Some(br) = r.bottom_right() {
                 let c = r.center();
                 let dx = r.top_left.x + br.x - 2 * c.x; let dy = r.top_left.y + br.y - 2 * c.y;
@@ -155,6 +159,9 @@ pub fn search(suite: &str, a: &[&str]) -> Option<String> {
                     let ex = match ai { 0 => w.top_left.x, 1 => w.top_left.x + (br.x - w.top_left.x) / 2, _ => br.x };
                     let ey = match bi { 0 => w.top_left.y, 1 => w.top_left.y + (br.y - w.top_left.y) / 2, _ => br.y };
                     if p0 != Point::new(ex, ey) { return Some(format!("FAIL anchor_point {:?} = {:?}", ap, p0)); }
+                    // the per-axis entry points and the AnchorPoint accessors
+                    if Point::new(r.anchor_x(ax), r.anchor_y(ay)) != p0 { return Some(format!("FAIL anchor_x/anchor_y {:?}", ap)); }
+                    if ap.x() != ax || ap.y() != ay { return Some("FAIL AnchorPoint::x/y".into()); }
                     if r.resized_width(s.width, ax) != r.resized(Size::new(s.width, r.size.height), ap) { return Some("FAIL resized_width".into()); }
                     if r.resized_height(s.height, ay) != r.resized(Size::new(r.size.width, s.height), ap) { return Some("FAIL resized_height".into()); }
                 }
